@@ -131,7 +131,9 @@ BigCases == {[kind |-> "seq", disk |-> BigDisk, label |-> "big",
                    prog |-> [T1 |-> << C("ExtractFile", 1, "f2", 0, 0), [C("AddFile", 2, "f3", 0, 0) EXCEPT !.dat = BigData],
                                        C("OpenFileEx", 2, "f3", 0, 0), C("SetFilePointer", 3, "", 4090, 0), C("ReadFile", 3, "", 4916, 0),
                                        C("FlushArchive", 2, "", 0, 0), C("OpenFileEx", 2, "f3", 0, 0), C("ReadFile", 4, "", 9001, 0) >>]]}
-EnumCases == <<FillCase>> \o SetToSeq(ThreeArch) \o SetToSeq(AllocChains) \o SetToSeq(BigCases)
+\* lock discipline: one call of every function on every handle class, run with the lock tracer of the driver
+LockOrderCases == {ECase(<<CallRec(c)>>, "lockorder") : c \in Reduced}
+EnumCases == <<FillCase>> \o SetToSeq(LockOrderCases) \o SetToSeq(ThreeArch) \o SetToSeq(AllocChains) \o SetToSeq(BigCases)
              \o SetToSeq({ECase(<<CallRec(p[1]), CallRec(p[2])>>, "closepair") : p \in ClosePairs})
              \o SetToSeq({ECase(<<CallRec(p[1]), CallRec(p[2])>>, "cursorpair") : p \in CursorPairs}) \o SetToSeq({ECase(<<CallRec(c)>>, "single") : c \in Singles})
              \o SetToSeq({ECase(<<CallRec(p[1]), CallRec(p[2])>>, "pair") : p \in Pairs})
